@@ -190,6 +190,11 @@ class Recorder:
     def callback(self, h, args):
         """a callee-issued synchronous request"""
         if not self.open and not self.lazies:
+            if _in_check(self) or _access_subject(self)[0]:
+                # the attribute policy itself (`_check_attr` / `_access_attr`, outside their hasattr/getattr primitives) is
+                # asking the peer: an operation on the NAME is answered by peer-chosen code.  The model never does this.
+                self.events.append("policy-callback %d %s" % (h, self.pvs(args)))
+                return
             raise Unobservable("callback to the peer outside any observed primitive")
         self.flush()
         self.tape.append("K %d %s" % (h, "".join(self.pv(a) + " " for a in args).strip()))
